@@ -102,7 +102,9 @@ class Ctx:
         self.counters['violations_raw'] += 1
         if sys.flags.optimize and isinstance(witness, dict) and isinstance(witness.get('unit'), dict):
             witness['unit']['pyopt'] = True        # the replay must run under -O as well
-            msg = '[python -O] ' + msg
+            witness['unit']['hashseed'] = os.environ.get('PYTHONHASHSEED')
+            witness['unit']['c_locale'] = sys.getfilesystemencoding().lower() in ('ascii', 'ansi_x3.4-1968')
+            msg = f'[python -O, PYTHONHASHSEED={os.environ.get("PYTHONHASHSEED")}, file-system encoding {sys.getfilesystemencoding()}] ' + msg
         per_sig = sum(1 for v in self.violations if v['sig'] == sig)
         if per_sig < 3:
             self.violations.append({'sig': sig, 'msg': msg, 'witness': witness})
@@ -146,6 +148,8 @@ def worker_main(pid, tier, seed, unit_file, out_file):
     ctx = Ctx(pid, tier, seed, job['index'])
     if sys.flags.optimize:
         ctx.count('units_run_under_python_-O')
+    if sys.getfilesystemencoding().lower() in ('ascii', 'ansi_x3.4-1968'):
+        ctx.count('units_run_with_an_ascii_locale')
     from vmon.vclock import real_time
     t0 = real_time()
     try:
@@ -174,6 +178,9 @@ def load_findings():
         return json.load(f).get('findings', [])
 
 
+C_LOCALE = {'LC_ALL': 'C', 'LANG': 'C', 'PYTHONUTF8': '0', 'PYTHONCOERCECLOCALE': '0', 'PYTHONIOENCODING': 'utf-8'}
+
+
 def run_check(pid, tier, seed, jobs):
     mod = load_mod(pid)
     t0 = time.time()
@@ -186,7 +193,9 @@ def run_check(pid, tier, seed, jobs):
         for u in units:
             if isinstance(u, dict) and seen_kinds[u.get('kind')] < n_opt:
                 seen_kinds[u.get('kind')] += 1
-                extra.append(dict(u, pyopt=True))
+                # ... and with another string-hash seed (set / dict-of-str ordering), in the plain C locale without UTF-8 mode
+                # (file-system and preferred encoding are ASCII there)
+                extra.append(dict(u, pyopt=True, hashseed=12345, c_locale=True))
         units = units + extra
     tmp = tempfile.mkdtemp(prefix=f'vmon-{pid}-', dir='/dev/shm' if os.path.isdir('/dev/shm') else None)
     timeout = getattr(mod, 'UNIT_TIMEOUT', {}).get(tier, 1800 if tier == 'quick' else 7200)
@@ -205,9 +214,14 @@ def run_check(pid, tier, seed, jobs):
                 with open(uf, 'w') as f:
                     json.dump({'index': i, 'unit': unit}, f)
                 # a unit marked 'pyopt' is served by an interpreter started with -O (assert statements compiled out)
+                uenv = env
+                if isinstance(unit, dict) and unit.get('hashseed') is not None:
+                    uenv = dict(env, PYTHONHASHSEED=str(unit['hashseed']))
+                if isinstance(unit, dict) and unit.get('c_locale'):
+                    uenv = dict(uenv, **C_LOCALE)
                 p = subprocess.Popen(
                     [PY] + (['-O'] if isinstance(unit, dict) and unit.get('pyopt') else []) + ['-m', 'vmon.runner', '--worker', pid, tier, str(seed), uf, of],
-                    cwd=HERE, env=env, stdout=subprocess.PIPE, stderr=subprocess.STDOUT)
+                    cwd=HERE, env=uenv, stdout=subprocess.PIPE, stderr=subprocess.STDOUT)
                 running.append((i, p, of, time.time()))
             time.sleep(0.02)
             still = []
@@ -368,6 +382,10 @@ def replay(pid, path):
     if isinstance(wu, dict) and wu.get('pyopt') and not sys.flags.optimize:
         _prep_path()
         env = dict(os.environ, PYTHONPATH=os.pathsep.join([REPO, HERE]))
+        if wu.get('hashseed') is not None:
+            env['PYTHONHASHSEED'] = str(wu['hashseed'])
+        if wu.get('c_locale'):
+            env.update(C_LOCALE)
         return subprocess.call([PY, '-O', '-m', 'vmon.runner', pid, '--replay', path], cwd=HERE, env=env)
     ctx = Ctx(pid, w.get('tier', 'quick'), w.get('seed', 0))
     ctx.replaying = True
